@@ -123,6 +123,76 @@ func checkC17(c *core.Ctx) {
 			}
 		}
 	}
+	// gradient / weight value classes: cancelling gradients (sum exactly 0),
+	// all-zero gradients, huge and tiny magnitudes (w, g, lr*g and w-lr*g finite)
+	type vc struct {
+		name string
+		w, g []float64
+	}
+	classes := []vc{
+		{"cancel", []float64{1, 2, 3, 4}, []float64{1, -1, 2, -2}},
+		{"cancel2", []float64{0.5, -0.5, 7, 0}, []float64{3, 0, -3, 0}},
+		{"zero", []float64{1, -2, 3, 4}, []float64{0, 0, 0, 0}},
+		{"huge", []float64{1, -1, 2, 0.5}, []float64{3e160, -2e200, 1e300, 1e154}},
+		{"hugeW", []float64{1e300, -1e250, 1e200, -1e154}, []float64{1, -2, 3, 4}},
+		{"tiny", []float64{1e-300, -1e-250, 5e-324, 0}, []float64{1e-300, 2e-250, -1e-200, 1e-320}},
+		{"mixed", []float64{1e10, -1e-10, 0, 1}, []float64{1e-10, 1e10, 1e160, -1e-160}},
+	}
+	for _, cl := range classes {
+		for _, shape := range [][]int{{4}, {2, 2}, {1, 4, 1}} {
+			for li, l := range c17LRs {
+				cl, shape, l := cl, shape, l
+				c.Case(fmt.Sprintf("class/%s/%v/lr%d", cl.name, shape, li), true, func() core.Verdict {
+					w0 := &ref.T{Shape: shape, V: cl.w}
+					g0 := &ref.T{Shape: shape, V: cl.g}
+					w := rt.Make(w0, true)
+					y, err := w.Mul(rt.Make(g0, false))
+					if err != nil {
+						return core.Fail("Mul: %v", err)
+					}
+					if err := tensor.BackPropagate(y); err != nil {
+						return core.Fail("BackPropagate: %v", err)
+					}
+					if w.Gradient() == nil {
+						return core.Fail("no gradient")
+					}
+					if ok, msg := core.RelClose(rt.Read(w.Gradient()), g0, 1e-12, 0); !ok {
+						return core.Fail("gradient before update: %s", msg)
+					}
+					ptr := w
+					if err := l.opt().Update(&ptr); err != nil {
+						return core.Fail("Update with finite weights %v and finite gradient %v (lr %v) returned an error: %v", cl.w, cl.g, l.value(), err)
+					}
+					exp := ref.New(shape)
+					finite := true
+					for i := range exp.V {
+						exp.V[i] = w0.V[i] - l.value()*g0.V[i]
+						if math.IsInf(exp.V[i], 0) || math.IsNaN(exp.V[i]) {
+							finite = false
+						}
+					}
+					if !finite {
+						return core.Skip()
+					}
+					if ok, msg := core.RelClose(rt.Read(ptr), exp, 1e-12, 0); !ok {
+						return core.Fail("updated weight for w=%v g=%v lr=%v: %s", cl.w, cl.g, l.value(), msg)
+					}
+					if ok, msg := core.ExactEq(rt.Read(w), w0); !ok {
+						return core.Fail("previous tensor changed: %s", msg)
+					}
+					// the tensor now behind the pointer has no gradient: another Update must be refused
+					keep := ptr
+					if err := l.opt().Update(&ptr); err == nil {
+						return core.Fail("w=%v g=%v lr=%v: a second Update (no back-propagation in between) returned no error: the tensor behind the pointer still carries the old gradient", cl.w, cl.g, l.value())
+					}
+					if ptr != keep {
+						return core.Fail("refused Update replaced the tensor")
+					}
+					return core.Pass()
+				})
+			}
+		}
+	}
 	// error paths
 	for li, l := range c17LRs {
 		l := l
